@@ -268,8 +268,10 @@ func RunC18(c *Ctx, r *Report) {
 	dr := c.Alias(&AliasCfg{
 		Scope: dscope,
 		Source: func(fn *ssa.Function, v ssa.Value) bool {
+			// parameters of internal helpers (unexported, every caller known) are no inputs of their own:
+			// they carry what their callers pass, which the analysis propagates from the call sites
 			p, ok := v.(*ssa.Parameter)
-			return ok && isByteSlice(p.Type())
+			return ok && isByteSlice(p.Type()) && !c.eligibleForCallerFacts(fn)
 		},
 	})
 	r.Rule(prefix+"decode.no-input-write", "decode scope never writes through, copies into, or appends onto memory derived from a []byte parameter (read-only sharing of an input slice is safe)", 30)
